@@ -269,6 +269,23 @@ func runFold(c *core.Case) {
 		// empty prefix / suffix
 		check("HasPrefixFold.empty", ascii.HasPrefixFold(a, nil), true, x, 0)
 		check("HasSuffixFold.empty", ascii.HasSuffixFold(a, b[:0]), true, x, 0)
+		// arguments that are views of one buffer: same start (prefix) or same end (suffix),
+		// either one the longer; the answer depends on the bytes only
+		for _, d := range []int{0, 1, 2, fc.L / 2, fc.L} {
+			if d > fc.L {
+				continue
+			}
+			short, long := a[:fc.L-d], a
+			check("HasPrefixFold.alias", ascii.HasPrefixFold(short, long), refHasPrefixFold(short, long), x, byte(d))
+			check("HasPrefixFold.alias", ascii.HasPrefixFold(long, short), refHasPrefixFold(long, short), x, byte(d))
+			check("HasPrefixFoldString.alias", ascii.HasPrefixFoldString(bstr(short), bstr(long)), refHasPrefixFold(short, long), x, byte(d))
+			check("EqualFold.alias", ascii.EqualFold(short, long), refEqualFold(short, long), x, byte(d))
+			tail := a[d:]
+			check("HasSuffixFold.alias", ascii.HasSuffixFold(tail, long), refHasSuffixFold(tail, long), x, byte(d))
+			check("HasSuffixFold.alias", ascii.HasSuffixFold(long, tail), refHasSuffixFold(long, tail), x, byte(d))
+			check("HasSuffixFoldString.alias", ascii.HasSuffixFoldString(bstr(tail), bstr(long)), refHasSuffixFold(tail, long), x, byte(d))
+			check("EqualFoldString.alias", ascii.EqualFoldString(bstr(tail), bstr(long)), refEqualFold(tail, long), x, byte(d))
+		}
 	}
 	b[fc.P] = sb
 	c.Count("evaluations.fold", n)
@@ -394,7 +411,7 @@ func errstr(e error) string {
 func init() {
 	core.Register(&core.Monitor{
 		Prop:    "C20",
-		Rule:    "valid-sweep: one case per (length, start alignment) of a slice inside a page-aligned buffer whose surroundings have the opposite classification; inside a case every position x every deviating value (all 256 values for lengths<=80, 7 boundary values above) is evaluated for Valid/ValidString/ValidPrint/ValidPrintString against byte-wise loops. fold-sweep: one case per (length, position); all 128x128 ASCII byte pairs (or the 768 letter-focused pairs) at that position for EqualFold/HasPrefixFold/HasSuffixFold and String variants plus the -1/0/+1 length relations. byte-rune: all 256 bytes and every rune. json-fastpath: strings/keys with one deviating byte at each position vs encoding/json. A case is distinct by its (length, alignment|position) and non-trivial when length>0. Every answer is folded into a per-case hash that must be equal in the default and purego builds.",
+		Rule:    "valid-sweep: one case per (length, start alignment) of a slice inside a page-aligned buffer whose surroundings have the opposite classification; inside a case every position x every deviating value (all 256 values for lengths<=80, 7 boundary values above) is evaluated for Valid/ValidString/ValidPrint/ValidPrintString against byte-wise loops. fold-sweep: one case per (length, position); all 128x128 ASCII byte pairs (or the 768 letter-focused pairs) at that position for EqualFold/HasPrefixFold/HasSuffixFold and String variants plus the -1/0/+1 length relations and arguments that are views of one buffer sharing their start or their end (either one the longer). byte-rune: all 256 bytes and every rune. json-fastpath: strings/keys with one deviating byte at each position vs encoding/json. A case is distinct by its (length, alignment|position) and non-trivial when length>0. Every answer is folded into a per-case hash that must be equal in the default and purego builds.",
 		Trusted: []string{"byte-wise reference loops in mon/c20 (transcribed from the statement)", "encoding/json (go1.23.5) for the dependent JSON fast path"},
 		Subs: []core.Sub{
 			{Name: "valid-sweep", N: func(t core.Tier) int { d := validDims(t); return (d.maxLen + 1) * d.maxAlign }, Run: runValid},
